@@ -67,7 +67,7 @@ _set('C06', {
     'design_ref': '8/C06',
     'technique': 'Lean 4 theorems (induction over word lists, all sizes, thresholds as parameters) + kernel-level correspondence under random tuning',
     'note': 'Trusted: Lean 4.33 kernel; axioms propext/Classical.choice/Quot.sound only (audited per theorem every run); the Lean specification (lean/DecimalModel/Spec); the hand-written Lean model of the Go methods (lean/DecimalModel), whose agreement with /repo is what the correspondence run of the same check samples on every run (Go harness + compiled Lean driver + line protocol); tools/gen for the regenerated parts.',
-    'text': 'Theorems (Properties/C06.lean, 14; Proofs/Vec DecOps Mul Div, 3200 lines) about the L0 word-list model of dec.go built on the word functions regenerated from the Go source, for ALL lengths and ALL thresholds: every vector kernel equals its arithmetic definition; add sub cmp shl shr mulAddWW divW basicMul; karatsuba_spec (any threshold, incl. the |x1-x0|*|y0-y1| sign handling), mul_spec, basicSqr/karatsubaSqr/sqr_spec, threshold independence as equality of word lists; Knuth algorithm D: divBasic_spec (the q-hat estimate, multiply-subtract, add-back WITH the decimal carry), divLarge, div_total: quotient and remainder exact, normalised, and no error outcome on valid operands. Not at theorem level: divRecursive (divisors >= 100 words), decided by the run against natOf arithmetic. The run: dec.mul/sqr/div through the hooks under random thresholds vs the L0 model (same thresholds) vs arithmetic; Mul/Quo through the public API.',
+    'text': 'Theorems (Properties/C06.lean, 29; Proofs/Vec DecOps Mul Div DivRec DivRecLeaf DivRecArith, 4700 lines) about the L0 word-list model of dec.go built on the word functions regenerated from the Go source, for ALL lengths and ALL thresholds: every vector kernel equals its arithmetic definition; add sub cmp shl shr mulAddWW divW basicMul; karatsuba_spec (any threshold, incl. the |x1-x0|*|y0-y1| sign handling), mul_spec, basicSqr/karatsubaSqr/sqr_spec, threshold independence as equality of word lists; Knuth algorithm D: divBasic_spec (the q-hat estimate, multiply-subtract, add-back WITH the decimal carry), divLarge, div_total: quotient and remainder exact, normalised, and no error outcome on valid operands. Recursive division (Burnikel-Ziegler, divisors >= divRecursiveThreshold; DecimalModel/DivRec.lean models divRecursive/divRecursiveStep literally: temps depths, un-normalised qhatv in cmp, padded slices, the three panic("impossible") sites and the slice-bounds panics as explicit errors): bz_lower/bz_upper (the block estimate is at most 2 too large), divBasic_gen (leaf calls with any destination length), divRecStep_total/_spec/_no_error - for any threshold >= 4 every step returns the exact block quotient and remainder and NONE of the error sites is reachable (this is the theorem the pre-c1e3f63 code fails: its model returns "impossible" on a 13-word input), divRecursive_total, divLargeRec_total/_spec, divFull_total/_spec/_no_error, divFull_eq_div (same word lists as the schoolbook path), divFull_production (thresholds 100/30). The run: dec.mul/sqr/div through the hooks under random thresholds vs the L0 model (same thresholds) vs arithmetic; Mul/Quo through the public API.',
 })
 
 _set('C07', {
